@@ -24,8 +24,12 @@ for d in args:
                 print('%s/%s: patch does not apply to HEAD (%s)' % (d, n, r.stderr.strip()[:100])); continue
             evd = tempfile.mkdtemp(prefix='evd_')
             out = []
-            for c in checks:
-                r = subprocess.run(['/venv/bin/python', '/verif/sa/check.py', c, '--root', wt, '--evidence-dir', evd], capture_output=True, text=True)
+            from concurrent.futures import ThreadPoolExecutor
+            def run1(c):
+                return c, subprocess.run(['/venv/bin/python', '/verif/sa/check.py', c, '--root', wt, '--evidence-dir', os.path.join(evd, c)], capture_output=True, text=True)
+            with ThreadPoolExecutor(max_workers=14) as ex:
+                results = list(ex.map(run1, checks))
+            for c, r in results:
                 if r.returncode == 1:
                     lines = [l for l in r.stdout.splitlines() if ' — rule ' in l]
                     out.append('FALSE-ALARM %s: %s' % (c, lines[0][:260] if lines else '')); rc_all = 1
